@@ -1064,13 +1064,12 @@ where
                 return Ok(result);
             }
             Some(0x26 /* & */) => {
-                self.consume('&');
-                if self.peek() == Some(0x26 /* & */) {
-                    self.consume('&');
+                if self.try_consume_str("&&") {
                     result.union_operand(first.clone());
                     ClassSetOperator::Intersection
                 } else {
-                    result.codepoints.add_one(0x26 /* & */);
+                    // A single '&' is an ordinary class set character: part of a union.
+                    result.union_operand(first.clone());
                     ClassSetOperator::Union
                 }
             }
